@@ -283,6 +283,10 @@ def states(ctx):
                 # release can have written this pair, and the tool (which trusts a matching version) cannot tell - not demanded
                 continue
             S["combo:%s+%s" % (mk, ik)] = st_combo(mk, ik)
+    # unparsable TEXT with non-ASCII characters at every offset around where a log line might cut it (40..70 bytes): "meta garbage" is
+    # not only binary garbage (seed C15-i: the error message quotes the first 48 BYTES of the file)
+    for k in range(40, 71, 1):
+        S["combo:text-garbage@%d+valid" % k] = st_meta(("-" * k + "été index ☃ do not touch 𝄞\n").encode("utf-8"))
     S["meta-missing"] = st_meta(None)
     S["meta-empty"] = st_meta(b"")
     for k in (1, len(valid_meta) // 2, len(valid_meta) - 1):
